@@ -81,38 +81,44 @@ def count_statements(files):
     return n
 
 def check_property_file(pid):
-    """Recompile Properties/<pid>.v alone (its dependencies are compiled by make), collect
-    the Print Assumptions output, compare with the allow-list.
-    -> dict(ok, theorems, axioms, problems, lemmas)"""
+    """Recompile Properties/<pid>.v (and Properties/<pid>base.v, the earlier theorems of the property, when
+    present) alone - their dependencies are compiled by make -, collect the Print Assumptions output, compare
+    with the allow-list.  -> dict(ok, theorems, axioms, problems, lemmas)"""
     vf = os.path.join(COQ, "Properties", pid + ".v")
-    res = dict(ok=False, theorems=[], axioms=[], problems=[], lemmas=0, file=vf)
+    res = dict(ok=False, theorems=[], axioms=[], problems=[], lemmas=0, file=vf, pins=[])
     if not os.path.exists(vf):
         res["problems"].append("missing " + vf); return res
-    code = strip_comments(open(vf).read())
-    res["theorems"] = re.findall(r"^\s*Theorem\s+([A-Za-z0-9_']+)", code, re.M)
-    pins = re.findall(r"^\s*Check\s+([A-Za-z0-9_']+)\s*:", code, re.M)
-    printed = re.findall(r"Print\s+Assumptions\s+([A-Za-z0-9_']+)", code)
-    for t in res["theorems"]:
-        if t not in printed: res["problems"].append("no Print Assumptions for " + t)
-    if not res["theorems"]: res["problems"].append("no Theorem in property file")
-    p = subprocess.run(["bash", "-c", "cd %s && timeout 600 coqc -q -Q . Suiron -w -all Properties/%s.v" % (COQ, pid)],
-                       stdout=subprocess.PIPE, stderr=subprocess.STDOUT, text=True)
-    if p.returncode != 0:
-        res["problems"].append("coqc failed: " + p.stdout[-1500:]); return res
-    out = p.stdout
+    files = [vf]
+    bf = os.path.join(COQ, "Properties", pid + "base.v")
+    if os.path.exists(bf): files.insert(0, bf)
     axioms = set()
-    # Print Assumptions output: "Closed under the global context" or "Axioms:\n name : type ..."
-    for block in re.split(r"\n(?=Closed under|Axioms:)", "\n" + out):
-        if block.startswith("Axioms:"):
-            for m in re.finditer(r"^([A-Za-z_][A-Za-z0-9_.']*)\s*:", block, re.M):
-                if m.group(1) != "Axioms": axioms.add(m.group(1))
+    closure = set()
+    for f in files:
+        code = strip_comments(open(f).read())
+        theorems = re.findall(r"^\s*Theorem\s+([A-Za-z0-9_']+)", code, re.M)
+        res["theorems"] += theorems
+        res["pins"] += re.findall(r"^\s*Check\s+([A-Za-z0-9_']+)\s*:", code, re.M)
+        printed = re.findall(r"Print\s+Assumptions\s+([A-Za-z0-9_']+)", code)
+        for t in theorems:
+            if t not in printed: res["problems"].append("no Print Assumptions for " + t)
+        p = subprocess.run(["bash", "-c", "cd %s && timeout 600 coqc -q -Q . Suiron -w -all Properties/%s" % (COQ, os.path.basename(f))],
+                           stdout=subprocess.PIPE, stderr=subprocess.STDOUT, text=True)
+        if p.returncode != 0:
+            res["problems"].append("coqc failed: " + p.stdout[-1500:]); return res
+        out = p.stdout
+        # Print Assumptions output: "Closed under the global context" or "Axioms:\n name : type ..."
+        for block in re.split(r"\n(?=Closed under|Axioms:)", "\n" + out):
+            if block.startswith("Axioms:"):
+                for m in re.finditer(r"^([A-Za-z_][A-Za-z0-9_.']*)\s*:", block, re.M):
+                    if m.group(1) != "Axioms": axioms.add(m.group(1))
+        n_reports = len(re.findall(r"Closed under the global context|Axioms:", out))
+        if n_reports < len(theorems):
+            res["problems"].append("fewer Print Assumptions reports than theorems in " + os.path.basename(f))
+        closure |= requires_closure(f)
+    if not res["theorems"]: res["problems"].append("no Theorem in property file")
     res["axioms"] = sorted(axioms)
     for a in axioms:
         if a not in ALLOWED_AXIOMS: res["problems"].append("axiom not in allow-list: " + a)
-    n_reports = len(re.findall(r"Closed under the global context|Axioms:", out))
-    if n_reports < len(res["theorems"]):
-        res["problems"].append("fewer Print Assumptions reports than theorems")
-    res["pins"] = pins
-    res["lemmas"] = count_statements(requires_closure(vf))
+    res["lemmas"] = count_statements(closure)
     res["ok"] = not res["problems"]
     return res
